@@ -147,7 +147,7 @@ func worldShape(w *World, r *Result) string {
 
 var envNoise = [][2]string{{"LANG", "de_DE.UTF-8"}, {"LC_ALL", "C"}, {"TZ", "Asia/Tokyo"}, {"TZ", "America/New_York"}, {"TZ", "Australia/Lord_Howe"}, {"NO_COLOR", "1"}, {"TERM", "dumb"}, {"TERM", "xterm-256color"},
 	{"USER", "someone"}, {"COLUMNS", "132"}, {"LINES", "50"}, {"GOPATH", "/nonexistent/gopath"}, {"GOFLAGS", "-mod=mod -trimpath"},
-	{"EDITOR", "vi"}, {"GOMAXPROCS", "1"}, {"GOMAXPROCS", "3"}, {"GODEBUG", "randautoseed=0"}, {"CI", "true"}, {"DEBUG", "1"}, {"GONTAINER_DEBUG", "1"}, {"FORCE_COLOR", "1"}, {"CLICOLOR_FORCE", "1"}, {"HOME", "/nonexistent/home"}}
+	{"EDITOR", "vi"}, {"GOMAXPROCS", "1"}, {"GOMAXPROCS", "3"}, {"GODEBUG", "randautoseed=0"}, {"CI", "true"}, {"DEBUG", "1"}, {"GONTAINER_DEBUG", "1"}, {"FORCE_COLOR", "1"}, {"CLICOLOR_FORCE", "1"}, {"HOME", "/nonexistent/home"}, {"TMPDIR", "/nonexistent/tmp"}, {"TMPDIR", ""}}
 
 // twinsC08 builds the perturbed siblings of w. Each differs from w only in dimensions the
 // property declares irrelevant. envReads are the variables the base run was seen reading.
@@ -214,7 +214,10 @@ func twinsC08(src *choice.Src, w *World, envReads []string) (tw []*World, dims [
 			Patterns: append([]string{}, w.Patterns...), Flags: append([]string{}, w.Flags...),
 			MapSeed: seed64(src, "twin.peer.map"), ListSeed: seed64(src, "twin.peer.list"), RandSeed: seed64(src, "twin.peer.rand"),
 			Clock: w.Clock, Pid: w.Pid + 7, Host: w.Host, Version: w.Version, Commit: w.Commit, Date: w.Date, Dirty: w.Dirty, Env: w.Env, NoGo: w.NoGo}
-		if src.Bool("twin.peer.stub") && !w.HasFlag("--stub") {
+		if src.Chance("twin.peer.sameout", 1, 3) {
+			// the very same command a second time (a watcher firing twice): same -o, same bytes
+			p.Out, p.PreOut = w.Out, w.PreOut
+		} else if src.Bool("twin.peer.stub") && !w.HasFlag("--stub") {
 			p.Flags = append(p.Flags, "--stub")
 		}
 		t.Peers = []*World{p}
@@ -355,6 +358,42 @@ func CheckC08(t Target, src *choice.Src, st *Stats) *Violation {
 		if d := diff(base, nr, false); len(d) > 0 {
 			return &Violation{Property: "C08", Sig: "dir-noise:" + strings.Join(d, "+"), Detail: "unrelated files in the output directory changed " + strings.Join(d, "+") + "\n" + explain(base, nr),
 				Worlds: []*World{w, nw}, Mode: "twin-all", Expect: []string{digest(base), digest(nr)}, Choices: genDraws}
+		}
+	}
+	// aliased inputs: some input files exist a second time under another name with the same bytes - once as
+	// copies, once as hard links / symbolic links to the first name. The ordered list of (name, content)
+	// pairs is the same in both worlds
+	if len(w.Faults) == 0 && src.Chance("twin.alias", 1, 5) {
+		mk := func(kind string) *World {
+			a := w.Clone()
+			n := len(a.Files)
+			for i := 0; i < n; i++ {
+				f := a.Files[i]
+				if f.Kind != "" || !strings.HasSuffix(f.Path, ".yaml") {
+					continue
+				}
+				again := strings.TrimSuffix(f.Path, ".yaml") + "_again.yaml"
+				nf := InFile{Path: again, Content: f.Content}
+				if kind != "" {
+					nf.Kind, nf.LinkTo = kind, f.Path
+				}
+				a.Files = append(a.Files, nf)
+				if !matchedByAny(a.Patterns, again) {
+					a.Patterns = append(a.Patterns, again)
+				}
+			}
+			return a
+		}
+		cw, lw := mk(""), mk(choice.Pick(src, "twin.alias.kind", []string{"hardlink", "symlink-to"}))
+		cr, lr := Exec(t, cw), Exec(t, lw)
+		if st != nil {
+			st.note(cw, cr)
+			st.note(lw, lr)
+			st.Dims["aliased-inputs"]++
+		}
+		if d := diff(cr, lr, false); len(d) > 0 {
+			return &Violation{Property: "C08", Sig: "aliased-inputs:" + strings.Join(d, "+"), Detail: "the same (name, content) pairs, once as copies and once as links to one file, gave different " + strings.Join(d, "+") + "\n" + explain(cr, lr),
+				Worlds: []*World{cw, lw}, Mode: "twin-all", Expect: []string{digest(cr), digest(lr)}, Choices: genDraws}
 		}
 	}
 	// previous-output twin: -o already holds what the same configuration generated under another
